@@ -98,6 +98,11 @@ Step(Shs, e, t) ==
          IN IF e.ret = R("pair", <<h, m>>) /\ projOK(New) THEN V(TRUE, New, "")
             ELSE V(FALSE, Shs, "stats is not the sum over the shards: expected " \o ToJson(<<h, m>>))
     ELSE IF e.op = "tick" THEN V(TRUE, Shs, "")
+    ELSE IF e.op \in {"pickle", "reopen", "copy"}
+    THEN \* C18: another handle on the same directory (unpickled, reopened): the same shards, nothing changes
+         IF e.ret.k # "none" THEN V(FALSE, Shs, "C18 " \o e.op \o " of the sharded cache failed with " \o e.ret.k)
+         ELSE IF ~projOK(Shs) THEN V(FALSE, Shs, "C18 " \o e.op \o " of the sharded cache changed the stored items")
+         ELSE V(TRUE, Shs, "")
     ELSE V(FALSE, Shs, "harness: unknown op " \o e.op)
 
 FInit == tid \in 1..NT /\ l = 1 /\ Sh = InitSh(Traces[tid]) /\ done = FALSE
